@@ -26,7 +26,12 @@ Statements outside the vocabulary (try, while, nested def, ...) are kept as opaq
 their exact text: they are pinned as before and act as barriers for substitution.
 """
 import ast
+import copy
 
+# callables that only iterate their argument once: a list comprehension and a generator expression
+# given to them are the same thing
+CONSUMERS = {"join", "extend", "list", "tuple", "sorted", "sum", "any", "all", "min", "max", "set",
+             "enumerate", "zip", "Series", "DataFrame", "asarray", "array"}
 PURE_FUNCS = {"float", "int", "str", "len", "range", "enumerate", "zip", "list", "tuple", "sorted",
               "isinstance", "bool", "min", "max", "repr", "type"}
 PURE_PREFIXES = ("pd.", "np.", "os.path.", "itertools.", "textwrap.", "math.")
@@ -64,8 +69,11 @@ class Path:
 
 
 class Exec:
-    def __init__(self, module, splice=True):
+    def __init__(self, module, splice=True, assume_false=()):
         self.splice = splice          # splice multi-path helpers called at statement level
+        # variables whose truth is outside the model's quantifier: the branch where one of them is
+        # true is not explored (the test itself stays in the normal form, decided False)
+        self.assume_false = set(assume_false)
         self.funcs = {n.name: n for n in module.body if isinstance(n, ast.FunctionDef)}
         self.depth = 0
         self.fn_stack = []
@@ -111,8 +119,16 @@ class Exec:
             return ("AND" if isinstance(e.op, ast.And) else "OR",
                     tuple(self.ev(v, p, bound) for v in e.values))
         if isinstance(e, ast.BinOp):
-            return ("BIN", type(e.op).__name__, self.ev(e.left, p, bound),
-                    self.ev(e.right, p, bound))
+            a, b = self.ev(e.left, p, bound), self.ev(e.right, p, bound)
+            if isinstance(e.op, ast.Add) and a[0] == "K" and b[0] == "K" \
+                    and a[1][:1] in "'\"" and b[1][:1] in "'\"":
+                return ("K", repr(ast.literal_eval(a[1]) + ast.literal_eval(b[1])))
+            if isinstance(e.op, ast.Add) and a[0] == "BIN" and a[1] == "Add" and a[3][0] == "K" \
+                    and b[0] == "K" and a[3][1][:1] in "'\"" and b[1][:1] in "'\"":
+                # (x + "lit") + "lit": string concatenation is associative
+                return ("BIN", "Add", a[2],
+                        ("K", repr(ast.literal_eval(a[3][1]) + ast.literal_eval(b[1]))))
+            return ("BIN", type(e.op).__name__, a, b)
         if isinstance(e, ast.Compare):
             left = self.ev(e.left, p, bound)
             out = []
@@ -235,10 +251,24 @@ class Exec:
                 return v
         if isinstance(f, ast.Attribute):
             recv = self.ev(f.value, p, bound)
+            if f.attr in CONSUMERS:
+                args = [_anon_comp(a) for a in args]
+            # methods of a string literal are computed
+            if recv[0] == "K" and recv[1][:1] in "'\"" and not args and not kwargs \
+                    and f.attr in ("upper", "lower", "strip", "lstrip", "rstrip", "title"):
+                return ("K", repr(getattr(ast.literal_eval(recv[1]), f.attr)()))
+            # os.path.join(os.path.join(a, b), c) is os.path.join(a, b, c)
+            if f.attr == "join" and recv == ("A", ("S", "os"), "path") and args \
+                    and args[0][:3] == ("M", "join", recv) and not args[0][4] and not kwargs:
+                args = list(args[0][3]) + args[1:]
             return ("M", f.attr, recv, tuple(args), kwargs)
         fn = self.ev(f, p, bound)
+        if fn[0] == "S" and fn[1] in CONSUMERS:
+            args = [_anon_comp(a) for a in args]
         if fn == ("S", "str") and len(args) == 1 and not kwargs and self.is_string(args[0]):
             return args[0]
+        if fn == ("S", "range") and len(args) == 2 and args[0] == ("K", "0") and not kwargs:
+            args = args[1:]                                   # range(0, n) is range(n)
         return ("C", fn, tuple(args), kwargs)
 
     def inline(self, fn, args, kwargs, p):
@@ -412,6 +442,10 @@ class Exec:
         for a, pol in p.conds:
             if a == v:
                 return k_true(p) if pol else k_false(p)
+        if v[0] in ("S", "LS", "AFTER") and v[-1] in self.assume_false:
+            pf = p.fork()
+            pf.conds.append((v, False))
+            return k_false(pf)
         pt, pf = p.fork(), p.fork()
         pt.conds.append((v, True))
         pf.conds.append((v, False))
@@ -425,6 +459,31 @@ class Exec:
                 continue
             if isinstance(s, ast.Pass):
                 continue
+            if isinstance(s, (ast.Assign, ast.AugAssign, ast.Expr, ast.Return)):
+                ie = _first_ifexp(s)
+                if ie is not None:
+                    # `x = a if c else b` is `if c: x = a else: x = b`
+                    v = self.ev(ie.test, p)
+                    return self.decide(
+                        v, p,
+                        lambda q: self.block([_replace_node(s, ie, ie.body)] + rest, q, in_loop),
+                        lambda q: self.block([_replace_node(s, ie, ie.orelse)] + rest, q, in_loop))
+            if isinstance(s, ast.Expr) and isinstance(s.value, ast.Call) \
+                    and isinstance(s.value.func, ast.Attribute) and s.value.func.attr == "extend" \
+                    and len(s.value.args) == 1 and not s.value.keywords \
+                    and isinstance(s.value.args[0], (ast.ListComp, ast.GeneratorExp)) \
+                    and len(s.value.args[0].generators) == 1 \
+                    and not s.value.args[0].generators[0].ifs:
+                # xs.extend(e for v in it) is `for v in it: xs.append(e)`
+                c = s.value.args[0]
+                g = c.generators[0]
+                app = ast.Expr(value=ast.Call(
+                    func=ast.Attribute(value=s.value.func.value, attr="append", ctx=ast.Load()),
+                    args=[c.elt], keywords=[]))
+                loop = ast.For(target=g.target, iter=g.iter, body=[app], orelse=[])
+                ast.copy_location(loop, s)
+                ast.fix_missing_locations(loop)
+                return self.block([loop] + rest, p, in_loop)
             if isinstance(s, (ast.Assign, ast.Expr, ast.Return)) and self.helper_call(s.value, p):
                 # a helper of the same file with several paths / effects, called at statement
                 # level: its paths are spliced into the caller's
@@ -538,6 +597,26 @@ class Exec:
         else:
             rng = ("RANGE", ln(it))
             self.assign_loop_target(tgt, ("EL", k, it), body_env)
+        # iterating xs[:n] when the path knows len(xs) >= n is the index loop `for i in range(n)`
+        # over xs[i]
+        sl = it[2][0] if (it[0] == "C" and it[1] == ("S", "enumerate") and len(it[2]) == 1) else it
+        if sl[0] == "SL" and sl[2] is None and sl[4] is None and sl[3] is not None \
+                and sl[3][0] == "UN" and sl[3][1] == "USub" and sl[3][2][0] == "K" \
+                and sl[3][2][1].isdigit():
+            # xs[:-c] has len(xs) - c elements (when that is not negative: an index loop over a
+            # negative range is empty as well)
+            sl = ("SL", sl[1], None, ("BIN", "Sub", ln(sl[1]), sl[3][2]), None)
+            if it[0] == "SL":
+                it = sl
+        if sl[0] == "SL" and sl[2] is None and sl[4] is None and sl[3] is not None \
+                and self.at_least(p, sl[1], sl[3]):
+            rng = ("RANGE", sl[3])
+            el = ("IDX", sl[1], ("IX", k, None))
+            if sl is it:
+                self.assign_loop_target(tgt, el, body_env)
+            else:
+                body_env[tgt.elts[0].id] = ("IX", k, None)
+                body_env[tgt.elts[1].id] = el
         assigned = sorted(_stored_names(s.body) - _target_names(tgt))
         for nm in assigned:
             body_env[nm] = ("LS", k, nm) if nm in p.env or True else None
@@ -559,6 +638,25 @@ class Exec:
             if nm not in p.assigned:
                 p.assigned.append(nm)
 
+    @staticmethod
+    def at_least(p, xs, n):
+        """do the conditions of path p entail len(xs) >= n?  (n is len(xs) - c, or the path decided
+        len(xs) - c == n, for a literal c >= 0)"""
+        ln = ("C", ("S", "len"), (xs,), ())
+
+        def short(v):
+            if v == ln:
+                return True
+            return v[0] == "BIN" and v[1] == "Sub" and v[2] == ln and v[3][0] == "K" \
+                and v[3][1].isdigit()
+        if short(n):
+            return True
+        for a, pol in p.conds:
+            if pol and a[0] == "CMP" and a[1] == "Eq" and (
+                    (a[2] == n and short(a[3])) or (a[3] == n and short(a[2]))):
+                return True
+        return False
+
     def assign_loop_target(self, tgt, v, env):
         if isinstance(tgt, ast.Name):
             env[tgt.id] = v
@@ -572,7 +670,10 @@ class Exec:
     def normal(self, paths, state=(), loop=None):
         out = []
         for q in paths:
-            conds = tuple(sorted(set((repr(a), pol) for a, pol in q.conds)))
+            # (text, outcome, the atom itself): the atom is carried for the fact extractors, the text
+            # is what is sorted and printed
+            conds = tuple(sorted(set((repr(a), pol, a) for a, pol in q.conds),
+                                 key=lambda c: (c[0], c[1])))
             sets = tuple((nm, q.env[nm]) for nm in state
                          if nm in q.env and q.env[nm] != ("LS", loop, nm))
             out.append((conds, tuple(q.effects), q.exit, sets))
@@ -583,6 +684,51 @@ class Exec:
         self.fn_stack = [fn]
         paths = self.block(list(fn.body), Path(), in_loop=False)
         return self.normal(paths)
+
+
+def _anon_comp(v):
+    if isinstance(v, tuple) and v and v[0] == "COMP":
+        return ("COMP", "Comp") + v[2:]
+    return v
+
+
+def _first_ifexp(s):
+    """the first conditional expression of a simple statement that is evaluated once (not inside a
+    comprehension / lambda body)"""
+    found = []
+
+    def walk(n):
+        if found:
+            return
+        if isinstance(n, (ast.ListComp, ast.GeneratorExp, ast.SetComp, ast.DictComp)):
+            for g in n.generators[:1]:
+                walk(g.iter)
+            return
+        if isinstance(n, ast.Lambda):
+            return
+        if isinstance(n, ast.IfExp):
+            found.append(n)
+            return
+        for c in ast.iter_child_nodes(n):
+            walk(c)
+    walk(s)
+    return found[0] if found else None
+
+
+def _replace_node(s, node, by):
+    """a deep copy of statement s in which `node` is replaced by (a copy of) `by`"""
+    node._pn_mark = True
+    try:
+        s2 = copy.deepcopy(s)
+    finally:
+        del node._pn_mark
+
+    class R(ast.NodeTransformer):
+        def visit(self, n):
+            if getattr(n, "_pn_mark", False):
+                return copy.deepcopy(by)
+            return self.generic_visit(n)
+    return ast.fix_missing_locations(R().visit(s2))
 
 
 def _contains(stmts, kinds):
@@ -645,7 +791,7 @@ def _fmt(v, ind=0):
             x[0], tuple) and isinstance(x[1], tuple) for x in v):
         lines = []
         for conds, effects, ex, sets in v:
-            lines.append(pad + "PATH " + (" & ".join(("" if pol else "not ") + a for a, pol in conds)
+            lines.append(pad + "PATH " + (" & ".join(("" if c[1] else "not ") + c[0] for c in conds)
                                           or "always"))
             for e in effects:
                 if e[0] == "FOREACH":
@@ -660,6 +806,6 @@ def _fmt(v, ind=0):
     return pad + repr(v)
 
 
-def normal_form_text(module, fn):
+def normal_form_text(module, fn, **options):
     """the pinned text for function `fn` of `module` (an ast.Module)"""
-    return _fmt(Exec(module).function(fn))
+    return _fmt(Exec(module, **options).function(fn))
